@@ -206,6 +206,10 @@ fn env_alphabet_v(t: usize, small: bool) -> Vec<Letter> {
     al.push(Letter::one(a(Some(1), z)));
     al.push(Letter::one(Line::U { id: Some(2), srv: "ACS", car: "EAMBIENTE", v: z.clone(), com: "BdC 2: SCOP 3 # x" }));
     al.push(Letter::one(Line::P { id: Some(2), src: "EAMBIENTE", v: vecs[0].clone(), com: "declarada" }));
+    // a declared production line that carries the comment the program writes on the lines it generates (a file
+    // saved by the program and edited afterwards): declared data all the same
+    al.push(Letter::one(Line::P { id: Some(1), src: "EAMBIENTE", v: vecs[vecs.len() - 2].clone(), com: "Equilibrado de consumo sin producción declarada" }));
+    al.push(Letter::one(Line::P { id: Some(2), src: "TERMOSOLAR", v: vecs[0].clone(), com: "Equilibrado de consumo sin producción declarada" }));
     if t == 2 {
         // a reversible heat pump with auxiliaries: the output lines (also negative ones) are declared data
         al.push(Letter::many(vec![u(Some(9), "CAL", "ELECTRICIDAD", z), u(Some(9), "REF", "ELECTRICIDAD", z), o(9, "CAL", z), o(9, "REF", &z.iter().map(|x| -x).collect::<Vec<_>>()), a(Some(9), z)]));
